@@ -91,6 +91,11 @@ CHECKS = {
          "Every commit DAG up to 3 (thorough 4) nodes, every pair of ancestor-closed sets held by server and client (so ahead / behind / diverged / unrelated / equal all arise), every depth 0..2, and bounded deviations over table sharing, ref placement, shallow state, haves per round trip (1 forces one round trip per commit), server-side table negotiation and packfile size (1 byte forces one packfile per object) are run through the real UploadPackSession / ReceivePackSession against refsrv. After each exchange the receiving store is checked for full history, tables within depth passing the structural oracle, byte-identical objects, and a repeated exchange that transfers nothing.",
          "Trusted: refsrv (300 lines of HTTP glue around ClosedSetsFinder, ObjectSender, ObjectReceiver; no policy of its own) - the server half is not part of the repository; map-backed ref stores. One known finding (push to a shallow remote).",
          "DESIGN.md §4 C09"),
+ "C10": ("exploration",
+         "exhaustive enumeration of (history relation x ref kind x force mode x operation) through the real command tree against a ref-transition model",
+         "Every combination of history relation between a ref's old and offered value (new, equal, ahead, far ahead, ahead through a shortcut merge, behind, diverged, unrelated), ref kind (remote-tracking, head, tag, custom), force mode (none, '+', --force) and operation (wrgl fetch, wrgl push; wrgl merge / wrgl pull with default, --no-ff, --ff-only), with a second always-legal ref in the same operation and (thorough) three commit-time orders, is executed on an on-disk repository against the reference server. The resulting ref values, reported rejections and newest reflog entries are compared with the transition model. The rule is a safety condition over history shapes; the shapes are enumerated rather than sampled.",
+         "Trusted: refsrv for the remote side; the 6-commit universe realising the relations; the transition model (40 lines).",
+         "DESIGN.md §4 C10"),
 }
 
 NOT_YET = {}
